@@ -397,6 +397,21 @@ def _graham(rc: RuleCtx):
         mod.node_scope[id(n)] = fi.scope
     env2 = dict(env)
     env2["__s2"], env2["__s1"] = s2, s1
+    # a stack of positions in the sorted points (`stack.append(i)`, read back as sorted_points[stack[-k]]) holds the same points
+    pushes = [c for st_ in loop.body[loop.body.index(w) + 1:] for c in ast.walk(st_)
+              if isinstance(c, ast.Call) and isinstance(c.func, ast.Attribute) and c.func.attr == "append" and isinstance(c.func.value, ast.Name) and c.func.value.id == stk]
+    if len(pushes) == 1 and len(pushes[0].args) == 1:
+        try:
+            pushed = fr.expr(pushes[0].args[0], dict(env))
+        except Unsupported:
+            pushed = None
+        if isinstance(pushed, Rat) and pushed.equals(i):
+            s2i, s1i = ev.symbol("s2@pos"), ev.symbol("s1@pos")
+            anf.declare_integer(s2i)
+            anf.declare_integer(s1i)
+            env2["__s2"], env2["__s1"] = s2i, s1i
+            s2 = Vec([anf.opaque("at", c, s2i, array=False) for c in sp.items], "point")
+            s1 = Vec([anf.opaque("at", c, s1i, array=False) for c in sp.items], "point")
     test = fr.cond(test_ast, env2)
     want_p = Vec([anf.opaque("at", c, i, array=False) for c in sp.items], "point")
     ps = [v for v in env.values() if isinstance(v, Vec) and v.kind == "point" and veq(v, want_p)]
